@@ -83,9 +83,9 @@ func runC05(r *Report) {
 				_, yC := ConstInt(bo.Y)
 				_, xC := ConstInt(bo.X)
 				switch {
-				case yC && sameRoot(bo.X, p) && ((bo.Op == token.GTR && !ft.Pol) || (bo.Op == token.GEQ && !ft.Pol) || (bo.Op == token.LEQ && ft.Pol) || (bo.Op == token.LSS && ft.Pol)):
+				case yC && losslessFrom(bo.X, p) && ((bo.Op == token.GTR && !ft.Pol) || (bo.Op == token.GEQ && !ft.Pol) || (bo.Op == token.LEQ && ft.Pol) || (bo.Op == token.LSS && ft.Pol)):
 					ok = true
-				case xC && sameRoot(bo.Y, p) && ((bo.Op == token.LSS && !ft.Pol) || (bo.Op == token.LEQ && !ft.Pol) || (bo.Op == token.GEQ && ft.Pol) || (bo.Op == token.GTR && ft.Pol)):
+				case xC && losslessFrom(bo.Y, p) && ((bo.Op == token.LSS && !ft.Pol) || (bo.Op == token.LEQ && !ft.Pol) || (bo.Op == token.GEQ && ft.Pol) || (bo.Op == token.GTR && ft.Pol)):
 					ok = true
 				}
 			}
@@ -691,4 +691,48 @@ func nullDecodes(g *ssa.Function) []nullDecode {
 		out = append(out, nd)
 	}
 	return out
+}
+
+// losslessFrom: v is parameter p itself or p seen through conversions that keep every value
+// (widening, same width and signedness). A narrowing or sign-changing conversion of an
+// attacker-chosen length (uint32 -> int32) lets huge values slip under an upper bound.
+func losslessFrom(v ssa.Value, p *ssa.Parameter) bool {
+	for i := 0; i < 6; i++ {
+		if v == ssa.Value(p) {
+			return true
+		}
+		switch x := v.(type) {
+		case *ssa.ChangeType:
+			v = x.X
+		case *ssa.Convert:
+			from, ok1 := x.X.Type().Underlying().(*types.Basic)
+			to, ok2 := x.Type().Underlying().(*types.Basic)
+			if !ok1 || !ok2 || from.Info()&types.IsInteger == 0 || to.Info()&types.IsInteger == 0 {
+				return false
+			}
+			size := func(b *types.Basic) int {
+				switch b.Kind() {
+				case types.Int8, types.Uint8:
+					return 8
+				case types.Int16, types.Uint16:
+					return 16
+				case types.Int32, types.Uint32:
+					return 32
+				default:
+					return 64
+				}
+			}
+			fu, tu := from.Info()&types.IsUnsigned != 0, to.Info()&types.IsUnsigned != 0
+			switch {
+			case fu == tu && size(to) >= size(from):
+			case fu && !tu && size(to) > size(from):
+			default:
+				return false
+			}
+			v = x.X
+		default:
+			return false
+		}
+	}
+	return false
 }
